@@ -173,7 +173,7 @@ impl<B: Fld, H: ElementHasher<BaseField = B> + Send + Sync> Prover for MetaProve
 
 /// What a case generator is asked for (None = free choice).
 #[derive(Clone, Default)]
-struct Want { ext: Option<FieldExtension>, layers: Option<usize>, aux: Option<bool>, grind: Option<bool>, min_domain: usize, many_queries: bool, meta: Vec<u8>, big_remainder: bool }
+struct Want { ext: Option<FieldExtension>, layers: Option<usize>, aux: Option<bool>, grind: Option<bool>, min_domain: usize, many_queries: bool, meta: Vec<u8>, big_remainder: bool, no_preverify: bool }
 
 fn num_layers(lde: usize, blowup: usize, fold: usize, rem: usize) -> usize {
     let max_rem = (rem + 1) * blowup; let (mut d, mut k) = (lde, 0);
@@ -224,9 +224,13 @@ where H: ElementHasher<BaseField = B> + Send + Sync {
         let bytes = proof.to_bytes();
         if bytes.len() > maxb { continue; }
         let acc = AcceptableOptions::OptionSet(vec![opts.clone()]);
-        match catch(AssertUnwindSafe(|| verify::<FamAir<B>, H, DefaultRandomCoin<H>>(proof.clone(), pi.clone(), &acc))) {
-            Ok(Ok(())) => {},
-            _ => { HONEST_REJECTED.with(|c| *c.borrow_mut() += 1); continue }
+        // correspondence cases are NOT filtered by a first verification: an honest proof that the verifier rejects shows up
+        // as verdict=rejected against the model's verdict=ok
+        if !want.no_preverify {
+            match catch(AssertUnwindSafe(|| verify::<FamAir<B>, H, DefaultRandomCoin<H>>(proof.clone(), pi.clone(), &acc))) {
+                Ok(Ok(())) => {},
+                _ => { HONEST_REJECTED.with(|c| *c.borrow_mut() += 1); continue }
+            }
         }
         let desc = format!("field={} hasher={} w={} n={} degs={:?} aux={}/{} blowup={} ext={:?} fold={} rem={} q={} grind={} meta={} seed={} bytes={}",
             B::NAME, hname, spec.width, spec.n(), spec.degs, spec.aux_width, spec.aux_rands, blowup, ext, fold, rem, q, grind, hex_bytes(&want.meta), spec.seed, bytes.len());
@@ -771,7 +775,7 @@ fn corr(seed: u64, n: usize) {
         let want = Want {
             // the cubic extension exists for f64 only (even i)
             ext: Some(if i % 14 == 6 { FieldExtension::Cubic } else if (i / 2) % 2 == 0 { FieldExtension::None } else { FieldExtension::Quadratic }),
-            layers: Some((i / 4) % 3), aux: Some((i / 12) % 2 == 1), grind: Some((i / 24) % 2 == 1), min_domain: 16, many_queries: (i / 48) % 2 == 1, meta: vec![], big_remainder: false,
+            layers: Some((i / 4) % 3), aux: Some((i / 12) % 2 == 1), grind: Some((i / 24) % 2 == 1), min_domain: 16, many_queries: (i / 48) % 2 == 1, meta: vec![], big_remainder: false, no_preverify: true,
         };
         let res = match (i % 2, (i / 96) % 3) {
             (0, 0) => make_case::<f64::BaseElement, Blake3_256<f64::BaseElement>>(&mut r, 1 << 20, "blake3_256", &want).map(|c| { if i % 6 == 0 { let sh = observe::<_, Blake3_256<f64::BaseElement>>(&c).0; policy_probe::<_, Blake3_256<f64::BaseElement>>(&c, &mut Rng::new(seed ^ i as u64), &sh); } (c.desc.clone(), observe::<_, Blake3_256<f64::BaseElement>>(&c)) }),
